@@ -74,11 +74,12 @@ Counter = t.NewType("Counter", int)  # the name is also an attribute of the typi
 Text = t.TypeAliasType("Text", list[int])
 
 IntT = int
+LitRW = t.Literal["r", "w"]
 ListInt = list[int]
 DictStrInt = dict[str, int]
 OptInt = t.Optional[int]
 
-BASES = {"int": ("IntT", int), "list[int]": ("ListInt", list[int]), "Point": ("Point", Point), "WPoint": ("WPoint", WPoint), "dict[str,int]": ("DictStrInt", dict[str, int])}
+BASES = {"int": ("IntT", int), "list[int]": ("ListInt", list[int]), "Point": ("Point", Point), "WPoint": ("WPoint", WPoint), "dict[str,int]": ("DictStrInt", dict[str, int]), "Literal": ("LitRW", LitRW)}
 WRAPPERS = ("NewType", "alias", "alias_str", "Final", "ClassVar", "str", "ForwardRef")
 _n = [0]
 
